@@ -874,7 +874,7 @@ pub fn run(ctx: &mut Ctx) {
     let max_ops = ctx.args.get_u64("ops", if miri { 60 } else { 400 }) as usize;
     let focus = ctx.args.get("focus").unwrap_or("C03").to_string();
     let small = miri || ctx.args.get_u64("small", 0) == 1;
-    let pool_len = if small { 64 * 1024 } else { 4 << 20 };
+    let pool_len = if miri { 12 * 1024 } else if small { 64 * 1024 } else { 4 << 20 };
     let pool_data = gen::pattern(ctx.args.seed.wrapping_mul(0x1000), pool_len);
 
     for r in 0..cases {
